@@ -191,6 +191,31 @@ func rulesC10(c *Ctx) {
 					sel, _ := ast.Unparen(call.Args[2]).(*ast.SelectorExpr)
 					ok := f.Name() == "(*ServerSession).handle" && sel != nil && f.IsField(sel, c.Field(pJ, "Request", "ID")) && f.ObjOf(sel.X) == types.Object(f.ParamOfNamed(pJ, "Request"))
 					c.Check(ok, "idContextKey-set:"+f.Name(), f, call, "the routing id is put into handler contexts only by ServerSession.handle, from the request being handled")
+					// … for every request: the tagging is subject to no condition that the dispatch itself is not subject to, and
+					// the tagged context is the one handed to the dispatch
+					fg := f.Graph()
+					hr := c.FnObj(pM, "", "handleReceive")
+					hv := fg.callVertices(hr)
+					okAll := len(hv) == 1
+					if okAll {
+						dGuards := map[string]bool{}
+						for _, a := range fg.GuardsAt(hv[0]) {
+							dGuards[a.String()] = true
+						}
+						for _, a := range fg.GuardsAt(fg.VertexOf(call)) {
+							if !dGuards[a.String()] {
+								okAll = false
+							}
+						}
+						okAll = okAll && fg.Dominates(fg.VertexOf(call), hv[0])
+						if as, isAs := f.ParentOf(call).(*ast.AssignStmt); isAs && len(as.Lhs) == 1 {
+							dc := f.CallsIn(fg.Node(hv[0]), hr, false)[0]
+							okAll = okAll && len(dc.Args) > 0 && f.ObjOf(dc.Args[0]) == f.ObjOf(as.Lhs[0])
+						} else {
+							okAll = false
+						}
+					}
+					c.Check(okAll, "idContextKey-set-for-every-request", f, call, "the tagging dominates handleReceive, is not narrowed to some kinds of request (initialize included), and its result is the context passed on: whatever a handler or middleware sends for this request is routed to the request's own exchange")
 				}
 			}
 		}
